@@ -477,6 +477,11 @@ def run_check(pid, fn):
         rc = fn(ctx)
     except Inconclusive as ex:
         log("INCONCLUSIVE: %s" % ex)
+        if ctx.violations:
+            # real-code violations were already observed before the run became inconclusive: report them
+            log("violations observed before that point are reported")
+            ctx.extra["run_incomplete"] = str(ex)[:300]
+            sys.exit(ctx.finish())
         ctx.cleanup()
         sys.exit(2)
     except subprocess.TimeoutExpired as ex:
